@@ -128,7 +128,12 @@ def run(ctx):
 
         outputs = {}
         b = io.BytesIO(); b.write(lead); write_all(b); outputs["BytesIO"] = b.getvalue()[len(lead):]
-        w = WriteOnlySink(); write_all(w); outputs["write-only"] = w.data()
+        w = WriteOnlySink()
+        try:
+            write_all(w); outputs["write-only"] = w.data()
+        except Exception as e:  # noqa
+            bad.append({"what": f"encoding to a write-only sink (an object with write() only) failed: {type(e).__name__}: {e}", "seq": s,
+                        "classes": [_codec.cls_name(classes, ci) for ci, *_ in msgs], "bytes_written_before_the_failure": len(w.data())})
         q = QueueingSink()
         try:
             write_all(q); outputs["queueing"] = q.data()
